@@ -307,6 +307,14 @@ def parse_items(toks, src, lo, hi, parent=None):
                     m = tt.match + 1
                     continue
                 if tt.kind == 'punct' and tt.text == '{':
+                    if VERUS_MODE:
+                        # a brace group inside a contract (`x matches P { .. } ==> ...`) is followed by an operator
+                        # or a clause keyword; the body is followed by the next item / a closing brace
+                        nx = _skip_insig(toks, tt.match + 1, hi)
+                        if nx < hi and ((toks[nx].kind == 'punct' and toks[nx].text in '=&|,<>+-*/!?.') or
+                                        (toks[nx].kind == 'ident' and toks[nx].text in ('ensures', 'requires', 'decreases', 'recommends', 'returns', 'is', 'matches', 'as', 'opens_invariants', 'no_unwind'))):
+                            m = tt.match + 1
+                            continue
                     it.open = m
                     it.close = tt.match
                     it.last = tt.match
